@@ -283,3 +283,50 @@ Lemma thm_sha_extend : forall k a1 a2,
   (sha256_state a1 = sha256_state a2 -> forall s, sha256 (a1 ++ s) = sha256 (a2 ++ s)).
 Proof. intros k a1 a2 H1 H2. split; intros E; [now apply (sha1_extend k) | now apply (sha256_extend k)]. Qed.
 
+
+(* ---------- chunking independence, for every declared size ---------- *)
+Lemma w_header_pending t size st : w_header t size = Ok st -> (0 <= w_pending st)%Z.
+Proof.
+  unfold w_header. destruct (negb (type_valid t)); [discriminate|].
+  destruct (size <? 0)%Z eqn:E; [discriminate|].
+  destruct (Nat.ltb max_header_len _); [discriminate|]. intros [= <-]. cbn [w_pending]. lia.
+Qed.
+
+Lemma thm_chunking_independent f t size c1 c2 :
+  concat c1 = concat c2 -> path_raw f t size c1 = path_raw f t size c2.
+Proof.
+  intros E. unfold path_raw. destruct (w_header t size) as [st|e] eqn:Hh; [|reflexivity].
+  pose proof (w_header_pending _ _ _ Hh) as Hp.
+  destruct (Z_le_gt_dec (blen (concat c1)) (w_pending st)) as [Hfit|Hover].
+  - rewrite (w_writes_fit c1) by assumption. rewrite E in Hfit.
+    rewrite (w_writes_fit c2) by assumption. now rewrite E.
+  - rewrite (w_writes_over c1) by lia. rewrite E in Hover.
+    rewrite (w_writes_over c2) by lia. now rewrite E.
+Qed.
+
+(* ---------- what the reader accepts, exactly ---------- *)
+Definition header_shape (raw : bytes) (t : otype) (n : Z) (c : bytes) : Prop :=
+  exists ty sz,
+    raw = ty ++ 32 :: sz ++ 0 :: c /\
+    Forall (fun b => b <> 32) ty /\ Forall (fun b => b <> 0) sz /\
+    (List.length ty + List.length sz + 2 <= max_header_len)%nat /\
+    parse_type ty = Some t /\ parse_int64 sz = Some n.
+
+Lemma thm_read_header_spec raw t n c :
+  read_header raw = Ok (t, n, c) <-> header_shape raw t n c.
+Proof.
+  split.
+  - unfold read_header. intros Hr.
+    destruct (read_until 32 max_header_len raw []) as [[[ty b] r1]|e] eqn:E1; [|discriminate].
+    destruct (parse_type ty) as [t'|] eqn:Et; [|discriminate].
+    destruct (read_until 0 b r1 []) as [[[sz b2] r2]|e] eqn:E2; [|discriminate].
+    destruct (parse_int64 sz) as [n'|] eqn:En; [|discriminate].
+    injection Hr as -> -> ->.
+    apply read_until_inv in E1. destruct E1 as (pre1 & -> & -> & Hno1 & Hl1 & ->).
+    apply read_until_inv in E2. destruct E2 as (pre2 & -> & -> & Hno2 & Hl2 & _).
+    cbn [rev app] in *. exists pre1, pre2. repeat split; try assumption. lia.
+  - intros (ty & sz & -> & Hno1 & Hno2 & Hlen & Hpt & Hpi).
+    unfold read_header.
+    rewrite read_until_app by (try assumption; lia). cbn [rev app]. rewrite Hpt.
+    rewrite read_until_app by (try assumption; lia). cbn [rev app]. now rewrite Hpi.
+Qed.
